@@ -74,7 +74,7 @@ func c13Mine(c *Ctx, rel string) {
 	}
 	var watcher, worker *ssa.Function
 	var watcherGo, workerGo *ssa.Go
-	var workerMC *ssa.MakeClosure
+	var workerMC, watcherMC *ssa.MakeClosure
 	for _, g := range gos {
 		fn, mc := closureOf(g)
 		if fn == nil {
@@ -91,7 +91,7 @@ func c13Mine(c *Ctx, rel string) {
 			}
 		}
 		if hasSelect {
-			watcher, watcherGo = fn, g
+			watcher, watcherGo, watcherMC = fn, g, mc
 		} else {
 			worker, workerGo, workerMC = fn, g, mc
 		}
@@ -119,6 +119,35 @@ func c13Mine(c *Ctx, rel string) {
 		}
 	}
 	r.Floor(K("C13.floor.shared-cells"), len(cells), 3, "cells shared with goroutines")
+	// captured variables are identified by the cell they are bound to, never by their name
+	boundCell := func(mc *ssa.MakeClosure, t *ana.Term) *ssa.Alloc {
+		if t == nil || mc == nil {
+			return nil
+		}
+		fv, ok := t.V.(*ssa.FreeVar)
+		if !ok {
+			return nil
+		}
+		for i, f := range mc.Fn.(*ssa.Function).FreeVars {
+			if f == fv {
+				a, _ := mc.Bindings[i].(*ssa.Alloc)
+				return a
+			}
+		}
+		return nil
+	}
+	var doneCell, ctxCell *ssa.Alloc
+	for a, sc := range cells {
+		switch et := a.Type().(*types.Pointer).Elem().String(); {
+		case et == "uint32" && len(sc.goUses) == 2:
+			doneCell = a
+		case et == "context.Context":
+			if st := firstStore(a); st != nil && len(f.Params) > 1 && st.Val == ssa.Value(f.Params[1]) {
+				ctxCell = a
+			}
+		}
+	}
+
 	for _, sc := range cells {
 		kind, detail := c13Classify(c, f, sc, gos)
 		key := K("C13.shared-access." + sc.name)
@@ -290,7 +319,7 @@ func c13Mine(c *Ctx, rel string) {
 					var sawDone, sawClosing bool
 					for _, st := range x.States {
 						t := wb.Of(st.Chan, x)
-						if matches("call<(context.Context).Done>(load(free<ctx>))", t) {
+						if bd, m := ana.Match("call<(context.Context).Done>(load($c))", t); m && ctxCell != nil && boundCell(watcherMC, bd["$c"]) == ctxCell {
 							sawDone = true
 						}
 						if matches("load(free<closing>)", t) || chanFreeVar(st.Chan) == closing.Comment {
@@ -312,7 +341,8 @@ func c13Mine(c *Ctx, rel string) {
 				n := ana.CalleeName(x.Common())
 				if n == "sync/atomic.StoreUint32" {
 					t := wb.CallTermAt(x)
-					doneStore = matches("call<*>(free<done>, 1)", t)
+					bd, m := ana.Match("call<*>($c, 1)", t)
+					doneStore = m && doneCell != nil && boundCell(watcherMC, bd["$c"]) == doneCell
 					// under case 0 (ctx.Done)
 				}
 				if strings.HasPrefix(n, "(*sync.") || n == "time.Sleep" {
@@ -425,7 +455,8 @@ func c13Mine(c *Ctx, rel string) {
 			if ci, ok := ins.(ssa.CallInstruction); ok {
 				// done is non-zero afterwards: Store(done, 1), or CompareAndSwap(done, 0, 1) (if it fails done was non-zero already)
 				t := ana.NewBuilder(c.P, worker).CallTermAt(ci)
-				if matches("call<sync/atomic.StoreUint32>(free<done>, 1)", t) || matches("call<sync/atomic.CompareAndSwapUint32>(free<done>, 0, 1)", t) {
+				bd, m := ana.MatchAny(t, "call<sync/atomic.StoreUint32>($c, 1)", "call<sync/atomic.CompareAndSwapUint32>($c, 0, 1)")
+				if m && doneCell != nil && boundCell(workerMC, bd["$c"]) == doneCell {
 					storeDone = ci
 				}
 			}
